@@ -354,3 +354,34 @@ def c18_cli_write(outcome: int, has_itemsets: bool, preexisting: bool, x0: int) 
     if ENV.files.get(out_path) != X or w != ["w"]:
         return False
     return ("/out/itemsets.csv" in ENV.files) == has_itemsets
+
+
+# ---- e: decoding of the validator's output streams (round 3) ---------------------------------------
+def c18_decode_stream(n: int, b0: int, b1: int, b2: int) -> bool:
+    """
+    vpre: 0 <= b0 <= 255 and 0 <= b1 <= 255 and 0 <= b2 <= 255
+    vpost: _ == True
+    """
+    from pyxform.validators.util import decode_stream
+
+    raw = bytes([b0, b1, b2][:n])
+    out = decode_stream(raw)  # any exception is a violation: every byte string the validator may print must decode
+    if not isinstance(out, str) or len(out) > n or (n > 0 and len(out) == 0):
+        return False
+    if b0 < 128 and b1 < 128 and b2 < 128:
+        return out == S(*[b0, b1, b2][:n])
+    return True
+
+
+specialise(
+    "C18",
+    "e.decode-stream",
+    c18_decode_stream,
+    {"n": [1, 2, 3]},
+    timeout=300,
+    kernel=("pyxform.validators.util:decode_stream",),
+    shims=(),
+    symbolic="the validator's raw output: 1-3 arbitrary bytes (0..255 each), i.e. valid UTF-8, invalid UTF-8 and legacy code-page output",
+    bounds="byte strings of length 1-3 (fixed per instance); decoding never fails and ASCII is preserved",
+    weight=20,
+)
